@@ -476,3 +476,93 @@ Definition mon_C10 (strict : bool) (sc : scen) (obs : list callobs) : bool :=
 Definition ps_C10 : projspec := mkps (fun e => match e with ESee _ _ => true | _ => false end) false true false.
 
 Definition check_C10 := check_with2 ps_C10 (mon_C10 true) (mon_C10 false).
+
+(* ---------------------------------------------------------------- C12: a panicking raw lock operation *)
+Fixpoint is_retry_shape (s : shape) : bool :=
+  match s with SRetry _ => true | SPoison _ s' => is_retry_shape s' | _ => false end.
+
+Fixpoint first_fault (evs : list ev) : option (rop * lock) :=
+  match evs with
+  | [] => None
+  | ERaw _ k l RFault :: _ => Some (k, l)
+  | _ :: r => first_fault r
+  end.
+
+Definition acquired_in (t : tid) (evs : list ev) : list lock :=
+  flat_map (fun e => match e with
+                     | ERaw t' k l (RUnit | RBool true) => if Nat.eqb t t' && is_acq_rop k then [l] else []
+                     | _ => []
+                     end) evs.
+
+Definition release_faults_of (l : lock) (evs : list ev) : nat :=
+  length (filter (fun e => match e with ERaw _ k l' RFault => is_rel_rop k && Nat.eqb l l' | _ => false end) evs).
+
+(* the defects listed in known_findings.txt, by where the fault strikes *)
+Definition c12_known (sc : scen) (o : apiop) (fk : rop) : bool :=
+  match o with
+  | AAcquire c _ f =>
+      let retry := is_retry_shape (shape_of sc c) in
+      match f with
+      | FGuard => retry                                          (* D12a: retry unwind handler bookkeeping *)
+      | FScoped _ _ => retry || is_rel_rop fk                    (* D12a / D12c: release loop stops at the first panic *)
+      | FTry => is_rel_rop fk                                    (* D12b: rollback released again by the outer handler *)
+      | FScopedTry _ _ => is_rel_rop fk
+      end
+  | _ => false
+  end.
+
+(* [dead]: locks whose raw operation panicked so far *)
+Definition judge_C12 (relaxed : bool) (sc : scen) (dead : list lock)
+           (ms : tid -> mthread) (prev : list rawst) (t : tid) (o : apiop) (co : callobs) : bool :=
+  let r := co_ret co in
+  let evs := co_evs co in
+  (* a lock whose operation panicked refuses every later acquisition that needs it *)
+  (match o with
+   | AAcquire c _ f =>
+       if existsb (fun l => memb l dead) (leaves (shape_of sc c)) then
+         match r with
+         | RSkipped | RBlockedC => true
+         | ROk | RPoisoned => false
+         | _ => true
+         end
+       else true
+   | _ => true
+   end) &&
+  match first_fault evs with
+  | None => true
+  | Some (fk, fl) =>
+      (* the panic reaches the caller *)
+      rcode_eqb r RPanicked &&
+      (if relaxed && c12_known sc o fk then true
+       else
+         (* no lock the caller does not hold is released *)
+         negb (existsb ev_bad evs) &&
+         (* every other lock this call had taken (or, for a guard drop, the guard's holds) is released exactly
+            once, or its own release panicked *)
+         let mine := match o with
+                     | AGuardDrop | AGuardUnlock => guard_leaves sc (mt_guard (ms t))
+                     | _ => acquired_in t evs
+                     end in
+         forallb (fun l => Nat.eqb l fl ||
+                           Nat.eqb (releases_of l evs) 1 && negb (holds_by t (nth l (co_holds co) raw_free)) ||
+                           Nat.leb 1 (release_faults_of l evs)) mine)
+  end.
+
+Fixpoint c12_fold (relaxed : bool) (sc : scen) (dead : list lock) (ms : tid -> mthread) (prev : list rawst)
+         (hist : list (tid * apiop)) (obs : list callobs) : bool :=
+  match hist, obs with
+  | _, [] => true
+  | [], _ :: _ => false
+  | (t, o) :: hr, co :: orr =>
+      Nat.eqb t (co_tid co) && judge_C12 relaxed sc dead ms prev t o co &&
+      (if stop_code (co_ret co) then true
+       else c12_fold relaxed sc
+              (match first_fault (co_evs co) with Some (_, l) => l :: dead | None => dead end)
+              (upd ms t (track (ms t) o (co_ret co))) (co_holds co) hr orr)
+  end.
+
+Definition mon_C12 (relaxed : bool) (sc : scen) (obs : list callobs) : bool :=
+  c12_fold relaxed sc [] (fun _ => mt0) (pre_holds sc) (sc_hist sc) obs.
+
+Definition ps_C12 : projspec := mkps ev_is_raw true false false.
+Definition check_C12 := check_with2 ps_C12 (mon_C12 false) (mon_C12 true).
